@@ -50,12 +50,23 @@ Changes(t) == t.code = "OK" /\ t.pre.ok /\ t.resp # t.pre.v
 (***************************************************************************)
 (* Update.                                                                 *)
 (***************************************************************************)
+\* A stream opened with a read mask shows every value through that mask (s.mask; s.psub / s.rsub are, as
+\* t.sub for Get, the sub-field selections of the unmasked Get before the step / of the response).
+\* The Update must appear on the stream if what the stream shows changes.  Where the value changes but
+\* not its projection the text does not settle whether a change is due: not asserted.
 StreamFailsOnUpdate(t, s) ==
-  IF ~Changes(t) THEN {}      \* nothing is required of a stream when the value did not change
+  LET want   == Project(t.resp, s.mask, s.rsub)
+      before == Project(t.pre.v, s.mask, s.psub)
+  IN
+  IF ~(Changes(t) /\ want # before) THEN {}
   ELSE
     \* appears on every open stream whose reader keeps up (the harness reads everything at once
     \* and waits >= 3 s): a change carrying the response's value must have been read
-    If(\E k \in 1..Len(s.msgs) : s.msgs[k].v = t.resp, "update-missing-on-stream")
+    If(\E k \in 1..Len(s.msgs) : s.msgs[k].v = want, "update-missing-on-stream")
+    \* ... and if changes were delivered but none of them is the response seen through this stream's mask
+    \* (e.g. projected with another stream's mask, or not projected at all), say so
+    \cup If((\E k \in 1..Len(s.msgs) : s.msgs[k].v = want) \/ s.msgs = <<>> \/ s.mask.nil,
+            "stream-value-is-not-the-projection")
     \* ... every OPEN stream: the client has not closed this one and the record it addresses still exists
     \* (this Update of it succeeded), so the server must not have ended it - e.g. because some other
     \* record of the same collection was deleted
@@ -72,12 +83,12 @@ StreamFailsOnUpdate(t, s) ==
     \* a multi-part Update; that is not asserted against.)
     \cup If(~(s.uo /\ s.fresh /\ s.msgs # <<>>
               /\ (s.msgs[1].ct = "before-open"
-                  \/ (s.msgs[1].ct = "none" /\ s.quiet /\ s.msgs[1].v = t.pre.v))),
+                  \/ (s.msgs[1].ct = "none" /\ s.quiet /\ s.msgs[1].v = before))),
             "updates-only-stream-started-with-current-value")
     \* a Pull that is not updates-only from which nothing could be read when it was opened (see
     \* OpenFails): the first change it ever delivers must still be the value current at the open
     \* (the harness knows the server had subscribed before it went on), not this Update's
-    \cup If(~(~s.uo /\ s.fresh /\ s.msgs # <<>> /\ s.msgs[1].v # s.vopen),
+    \cup If(~(~s.uo /\ s.fresh /\ s.msgs # <<>> /\ s.msgs[1].v # Project(s.vopen, s.mask, s.sub)),
             "pull-does-not-start-with-current-value")
 
 UpdateFails(t) ==
@@ -129,8 +140,9 @@ OpenFails(t) ==
 (* plain Update supersedes it.  "Wait" lets time pass (longer than the     *)
 (* timed behaviour): read-your-writes must hold after any delay, so when   *)
 (* no timed behaviour is pending (t.armed = FALSE) the register must not   *)
-(* have moved and whatever arrived on the open streams meanwhile must      *)
-(* carry the value of the register (an echo), not some other value.        *)
+(* have moved and an open stream on which changes arrived meanwhile must   *)
+(* end on the value of the register seen through its mask (earlier ones    *)
+(* may be intermediate changes of Updates that were not waited for).       *)
 (***************************************************************************)
 TimedFails(t) ==
   If(t.code # "PANIC", "panic")
@@ -139,8 +151,9 @@ TimedFails(t) ==
 WaitFails(t) ==
   IF t.armed THEN {}
   ELSE ReadOnlyFails(t)
-       \cup UNION { If(\A k \in 1..Len(t.streams[j].msgs) : ~t.pre.ok \/ t.streams[j].msgs[k].v = t.pre.v,
-                       "stream-change-without-update") : j \in 1..Len(t.streams) }
+       \cup UNION { LET s == t.streams[j] IN
+                     If(~t.pre.ok \/ s.msgs = <<>> \/ s.msgs[Len(s.msgs)].v = Project(t.pre.v, s.mask, s.psub),
+                        "stream-change-without-update") : j \in 1..Len(t.streams) }
 
 Fails(t) ==
   CASE t.op = "Update"      -> UpdateFails(t)
